@@ -9,7 +9,11 @@ PROP = dict(
                 'API calls, stack paint word, heap fill byte): metamorphic '
                 'comparison of every documented output of the target across '
                 'three executions (first / after history H with paint A / '
-                'after a permuted or shortened H with paint B) in the '
+                'after a permuted or shortened H with paint B; H includes '
+                'calls on the target\'s own input and encoded-form buffers '
+                'after digest-preserving in-place edits, restored before the '
+                'compared call, and such an in-place call is itself compared '
+                'with the same call on a fresh copy of its arguments) in the '
                 'pinned-release, unoptimised-with-asserts, ASan and '
                 'heap-filling interposer builds, plus a MemorySanitizer '
                 'replay of a sample of the same generated cases'),
@@ -23,12 +27,23 @@ PROP = dict(
     rule=('case = (target codec call with its arguments from the shared '
           'array generator, 0..6 history calls drawn from the same menu each '
           'with its own small array / the target\'s array / an array of the '
-          'target\'s length, paint selectors {zero, count, natural residue, '
+          'target\'s length - or, one step in three, an in-place step: the '
+          'target\'s codec (same or other parameters) or another codec of '
+          'the same input type called on the target\'s own buffers (same '
+          'address; count, count-1 or count+1 elements) after 1..4 composable '
+          'generated edits {move d from element i to j with wraparound, d '
+          'chosen to cross the minimum / maximum / a width boundary; swap; '
+          'rotate; reverse; flip one bit in two elements; interior-only '
+          'changes; bit exchange inside pairs keeping sum and xor, over one '
+          'pair or every pair; shorter / longer view}, each optionally '
+          'starting again from the original contents and optionally followed '
+          'by its own call, original contents restored afterwards -, paint selectors {zero, count, natural residue, '
           'all-ones, count in both 32-bit halves, small, raw, biased}, heap '
           'fill byte); non-trivial = history non-empty and the target '
           'allocates or takes a metadata in/out parameter; distinct by hash '
           'of (target kind, parameters, array contents, history kinds / '
-          'lengths / array modes, both paint words)'),
+          'lengths / array modes / in-place edit scripts, both paint '
+          'words)'),
     quick=dict(configs=['rel', 'dbg', 'asan', 'oom', 'msan'], cases=400000,
                maxlen=320, dump_from='rel', dump_every=5, dump_max=5000,
                shares={'rel': 5, 'dbg': 4, 'asan': 4, 'oom': 3}),
@@ -41,7 +56,41 @@ PROP = dict(
                       'target.float', 'target.dict', 'target.bitmap',
                       'paint.count', 'paint.natural',
                       'history.sameCountAsTarget', 'adaptive.selected.FOR',
-                      'adaptive.selected.PFOR', 'adaptive.selected.DICT'],
+                      'adaptive.selected.PFOR', 'adaptive.selected.DICT',
+                      # in-place edit histories (calls on the target's own
+                      # buffers with other contents)
+                      'hist.inplace.case', 'hist.inplace.copyOracle',
+                      'hist.inplace.mixedWithOtherSteps',
+                      'hist.inplace.codec.own',
+                      'hist.inplace.codec.ownOtherParams',
+                      'hist.inplace.codec.other',
+                      'hist.inplace.view.shorter', 'hist.inplace.view.longer',
+                      'hist.inplace.sumKept.minOrMaxMoved',
+                      'hist.inplace.sumKept.len>=64',
+                      'hist.inplace.xorKept.minOrMaxMoved',
+                      'hist.inplace.firstLastKept.minOrMaxMoved',
+                      'hist.inplace.sumAndXorKept.everyElementChanged',
+                      'hist.inplace.encodedSameLength',
+                      'hist.inplace.encodedOtherLength',
+                      'hist.inplace.edit.move', 'hist.inplace.edit.swap',
+                      'hist.inplace.edit.rotate', 'hist.inplace.edit.reverse',
+                      'hist.inplace.edit.xorflip',
+                      'hist.inplace.edit.interior',
+                      'hist.inplace.edit.sumxor', 'hist.inplace.edit.view',
+                      'hist.inplace.target.pfor', 'hist.inplace.target.for',
+                      'hist.inplace.target.dict',
+                      'hist.inplace.target.dict.prebuilt',
+                      'hist.inplace.target.rle',
+                      'hist.inplace.target.delta.unsigned',
+                      'hist.inplace.target.bp128.32',
+                      'hist.inplace.target.bp128.64',
+                      'hist.inplace.target.bp128.delta64',
+                      'hist.inplace.target.elias.gamma',
+                      'hist.inplace.target.float',
+                      'hist.inplace.target.adaptive.auto',
+                      'hist.inplace.target.adaptive.forced',
+                      'hist.inplace.target.group',
+                      'hist.inplace.target.bitmap'],
     assumptions=COMMON_ASSUME + [
         'FOR encoders get metadata that was either filled by the matching '
         'Analyze call for the same array or has count == 0; PFOR decoders get '
@@ -57,6 +106,18 @@ PROP = dict(
         'stack residue is a repeated 64-bit word over 64 KiB below the '
         'caller; dependence on a multi-word residue pattern is only reachable '
         'through the MemorySanitizer replay',
+        'in-place history steps keep the documented preconditions of the '
+        'codec they call (sorted / 32-bit / >= 1 / signed-delta domains are '
+        're-established after the edits); they change the CONTENTS of the '
+        'target\'s buffers between calls, never during one; a stale entry '
+        'is only reachable if its key collides for one of the generated edit '
+        'scripts (pointer, count, sum, xor, first / last / sampled elements, '
+        'encoded length, leading encoded bytes) - a cache validated by a '
+        'strong hash of the contents is out of reach, as is one keyed on '
+        'output-buffer addresses',
+        'the copy oracle reads "results are a function of the arguments" as '
+        'independent of the address of the caller\'s buffers (both copies '
+        'are malloc-aligned)',
         'the fresh-process execution of the design entry is covered by '
         'execution (a) on a zeroed stack window plus the framework\'s three '
         'fresh-process confirmations of every candidate',
